@@ -1,7 +1,7 @@
 (* C18 — state retention keeps the newest states and deletes nothing else.
    Only statements; proofs in Proofs/KeeperProofs.v. *)
-From Coq Require Import List Bool Arith.
-From Pamiq Require Import Model.Buffers Model.Keeper Check.C18 Proofs.KeeperProofs.
+From Coq Require Import List Bool Arith Sorted Permutation.
+From Pamiq Require Import Model.Buffers Model.Keeper Check.C18 Proofs.KeeperProofs Proofs.KeeperSort.
 Import ListNotations.
 
 (* For every max_keep >= 0, every set of pre-existing state directories (any distinct
@@ -17,6 +17,41 @@ Print Assumptions C18_oracle_holds_on_model.
 Theorem C18_scan_keeps_matching : forall key l y, In y (sort_by key l) <-> In y l.
 Proof. exact sort_by_In. Qed.
 Print Assumptions C18_scan_keeps_matching.
+
+(* The start-up scan tracks exactly the matching entries, oldest first - for every modification-time
+   assignment; with distinct modification times that order is the only one (so "the max_keep newest"
+   is determined by the modification times alone, not by the order the directory was listed in). *)
+Theorem C18_scan_oldest_first : forall key l,
+  Permutation (sort_by key l) l /\ StronglySorted (older key) (sort_by key l).
+Proof. exact (fun key l => conj (sort_by_perm key l) (sort_by_sorted key l)). Qed.
+Print Assumptions C18_scan_oldest_first.
+
+Theorem C18_scan_order_is_determined : forall key l1 l2,
+  (forall a b, In a l1 -> In b l1 -> key a = key b -> a = b) ->
+  Permutation l1 l2 -> sort_by key l1 = sort_by key l2.
+Proof. exact sort_by_determined. Qed.
+Print Assumptions C18_scan_order_is_determined.
+
+(* One cleanup, any keeper state and any directory contents: what stays tracked is exactly the max_keep
+   newest tracked states (so at most max_keep), what is reported removed was an older tracked state that
+   existed and is gone afterwards, and an entry that is not tracked survives every keeper operation. *)
+Theorem C18_cleanup_keeps_exactly_the_newest : forall k fs,
+  tracked (fst (fst (kstep k fs KCleanup))) = lastn (max_keep k) (tracked k) /\
+  length (tracked (fst (fst (kstep k fs KCleanup)))) <= max_keep k.
+Proof. exact (fun k fs => conj (cleanup_tracked k fs) (cleanup_bound k fs)). Qed.
+Print Assumptions C18_cleanup_keeps_exactly_the_newest.
+
+Theorem C18_removed_are_old_tracked_states : forall k fs p,
+  In p (snd (kstep k fs KCleanup)) ->
+  In p (firstn (length (tracked k) - max_keep k) (tracked k)) /\ In p fs /\ ~ In p (snd (fst (kstep k fs KCleanup))).
+Proof. exact cleanup_removed. Qed.
+Print Assumptions C18_removed_are_old_tracked_states.
+
+Theorem C18_untracked_entries_survive : forall k fs o p,
+  ~ In p (tracked k) -> (forall q c, o = KAppend q c -> q <> p) -> (forall q, o = KExtRemove q -> q <> p) ->
+  In p fs -> In p (snd (fst (kstep k fs o))).
+Proof. exact keeper_touches_only_tracked. Qed.
+Print Assumptions C18_untracked_entries_survive.
 
 Theorem C18_nonvacuous : valid nv_input /\ model_obs nv_input =
   [([2], [1; 3; 90]); ([], [1; 3; 90; 4]); ([], [1; 3; 90; 4; 5]); ([], [1; 3; 90; 5]); ([], [1; 3; 90; 5; 91]); ([3; 1], [90; 5; 91]); ([], [90; 5; 91])].
